@@ -645,6 +645,16 @@ func c18SingleRoot(c *Ctx) {
 			if fa, ok := sto.Addr.(*ssa.FieldAddr); ok && strings.HasPrefix(fieldOf(fa), "ArchiveDecoder.") && isBool(sto.Val.Type()) {
 				if k, isK := sto.Val.(*ssa.Const); isK && k.Value != nil && k.Value.ExactString() == "true" {
 					st.Flags["set:"+fieldOf(fa)] = 1
+				} else if !isK {
+					// a computed state ("the root is a directory"): what it is on this path
+					switch st.Eval(sto.Val).B {
+					case BTrue:
+						st.Flags["computed:"+fieldOf(fa)] = 1
+					case BFalse:
+						st.Flags["computed:"+fieldOf(fa)] = 2
+					default:
+						st.Flags["computed:"+fieldOf(fa)] = 3
+					}
 				}
 			}
 		}
@@ -688,6 +698,21 @@ func c18SingleRoot(c *Ctx) {
 			if !below {
 				bad = append(bad, fmt.Sprintf("return at %s yields a node for an entry that follows the root although the root was not found to be a directory: after a symlink root the entry is created through the link, outside the destination (trail tail %s)", c.pos(ret.Pos()), tailOf(st.Trail, 6)))
 				return
+			}
+		}
+		// the first entry records whether the root is a directory: that must be decided by the
+		// same facts that decide which node is returned (the elements that followed the entry),
+		// not by something the archive can set independently (the mode bits of the entry)
+		if first != "" {
+			isDirNode := false
+			if mi, isNode := stripConv(ret.Results[0]).(*ssa.MakeInterface); isNode {
+				isDirNode = strings.HasSuffix(typeName(mi.X.Type()), "NodeDirectory")
+			}
+			for k, v := range st.Flags {
+				if strings.HasPrefix(k, "computed:") && !isDirNode && v != 2 {
+					bad = append(bad, fmt.Sprintf("return at %s yields a root node that is not a directory while %s is not known to be false on that path: a root symlink whose entry carries directory mode bits is followed by the entries after it (trail tail %s)", c.pos(ret.Pos()), strings.TrimPrefix(k, "computed:"), tailOf(st.Trail, 6)))
+					return
+				}
 			}
 		}
 		if st.Flags["named"] != 1 && st.Flags["nonempty"] != 1 && first == "" {
